@@ -1,7 +1,7 @@
 (* C15 property theorems: statements only, each closed by `exact`, pinned by `Check`, with its
    assumptions printed.  Definitions: Model_C15.v (transliterated from the Rust), lemmas: Proofs_C15.v *)
 From Coq Require Import ZArith List Bool Lia.
-From C15 Require Import Model_C15 Proofs_C15 Invariant_C15.
+From C15 Require Import DeepCopy_C15 Model_C15 Proofs_C15 Invariant_C15 DeepBulk_C15 DeepFloat_C15.
 Import ListNotations.
 Local Open Scope Z_scope.
 
@@ -215,6 +215,171 @@ Check history_element_access_never_panics : forall c ops v i x m,
   snd (step c (final_state c init_state ops) (Get v i)) <> OPanic /\
   snd (step c (final_state c init_state ops) (SetE v i x m)) <> OPanic.
 Print Assumptions history_element_access_never_panics.
+
+(* ---- deepening round: shared-memory copies, bulk operations ---------------------------------- *)
+
+(* boa's memmove on a SharedArrayBuffer (utils.rs: direction by src < dest, then head bytes / aligned AtomicU64 words /
+   tail bytes, forward or backward, byte loop when the two addresses differ mod 8) is the specification memmove
+   -- copy as if through a temporary -- for EVERY base address (alignment class), from, to (overlap either way) and
+   count in bounds.  Iterating the aligned words of the backward copy forward falsifies it (DeepCopy_C15,
+   Example forward_when_src_below_dest_is_wrong) *)
+Theorem memmove_model_eq_spec : forall base buf from to count,
+  0 <= from -> 0 <= to -> 0 <= count -> from + count <= zlen buf -> to + count <= zlen buf ->
+  memmove_shared base buf from to count = memmove_spec buf from to count.
+Proof. exact memmove_shared_eq_spec. Qed.
+Check memmove_model_eq_spec : forall base buf from to count,
+  0 <= from -> 0 <= to -> 0 <= count -> from + count <= zlen buf -> to + count <= zlen buf ->
+  memmove_shared base buf from to count = memmove_spec buf from to count.
+Print Assumptions memmove_model_eq_spec.
+
+(* ... and the specification memmove is read_bytes followed by write_bytes: copyWithin stores the same bytes into a
+   shared buffer (batched atomic copies) and into a plain one (ptr::copy) *)
+Theorem copywithin_shared_eq_plain : forall base m from to count chunk m',
+  0 <= from -> 0 <= to -> 0 <= count -> from + count <= zlen m -> to + count <= zlen m ->
+  read_bytes from (Z.to_nat count) m = Some chunk -> write_bytes to chunk m = Some m' ->
+  memmove_shared base m from to count = m'.
+Proof. exact DeepBulk_C15.copywithin_shared_eq_plain. Qed.
+Check copywithin_shared_eq_plain : forall base m from to count chunk m',
+  0 <= from -> 0 <= to -> 0 <= count -> from + count <= zlen m -> to + count <= zlen m ->
+  read_bytes from (Z.to_nat count) m = Some chunk -> write_bytes to chunk m = Some m' ->
+  memmove_shared base m from to count = m'.
+Print Assumptions copywithin_shared_eq_plain.
+
+(* copyWithin, slice, fill, set-from-array-like, subarray and the typed-array-from-typed-array constructor, executed in the
+   state reached by ANY history -- with any
+   resize or detach of the buffer from inside the `end` argument's valueOf -- never index outside a byte list.
+   For slice this is the re-validation after argument coercion: the count is re-clamped against the CURRENT length.
+   Partial: set-from-typed-array and with are not covered (they need the element-type agreement of source and target
+   and a byte-length field consistent with the array length, which wf_tarr does not record) *)
+Theorem bulk_ops_never_panic_partial : forall c ops v d db x tg st en m xs off k src,
+  let s := final_state c init_state ops in
+  snd (step c s (CopyWithin v tg st en m)) <> OPanic /\
+  snd (step c s (Slice d db v st en m)) <> OPanic /\
+  snd (step c s (Fill v x st en m)) <> OPanic /\
+  snd (step c s (SetArr v xs off)) <> OPanic /\
+  snd (step c s (Subarray d v st en)) <> OPanic /\
+  snd (step c s (MkTAFrom d db k src)) <> OPanic.
+Proof.
+  intros c ops v d db x tg st en m xs off k src s.
+  pose proof (history_invariant c ops) as W. fold s in W.
+  repeat split.
+  - apply np_CopyWithin; exact W.
+  - apply np_Slice; exact W.
+  - apply np_Fill; exact W.
+  - apply np_SetArr; exact W.
+  - apply np_Subarray; exact W.
+  - apply np_MkTAFrom; exact W.
+Qed.
+Check bulk_ops_never_panic_partial : forall c ops v d db x tg st en m xs off k src,
+  let s := final_state c init_state ops in
+  snd (step c s (CopyWithin v tg st en m)) <> OPanic /\
+  snd (step c s (Slice d db v st en m)) <> OPanic /\
+  snd (step c s (Fill v x st en m)) <> OPanic /\
+  snd (step c s (SetArr v xs off)) <> OPanic /\
+  snd (step c s (Subarray d v st en)) <> OPanic /\
+  snd (step c s (MkTAFrom d db k src)) <> OPanic.
+Print Assumptions bulk_ops_never_panic_partial.
+
+(* ---- deepening round: Float32 / Float16 element conversions ------------------------------- *)
+
+(* the rounding step of encode_float (used in the normal range, in the subnormal range where the last place is pinned,
+   and for the carry into the next binade) is round-to-nearest, ties-to-even, and exact when nothing is shifted out:
+   for every significand m and shift d *)
+Theorem float_rounding_step_nearest_even : forall m d, 0 <= m -> 0 < d ->
+  let q := rshift_rne m d in
+  2 * Z.abs (q * 2 ^ d - m) <= 2 ^ d /\
+  (2 * Z.abs (q * 2 ^ d - m) = 2 ^ d -> Z.even q = true) /\
+  (m mod 2 ^ d = 0 -> q * 2 ^ d = m).
+Proof. exact rshift_rne_spec. Qed.
+Check float_rounding_step_nearest_even : forall m d, 0 <= m -> 0 < d ->
+  let q := rshift_rne m d in
+  2 * Z.abs (q * 2 ^ d - m) <= 2 ^ d /\
+  (2 * Z.abs (q * 2 ^ d - m) = 2 ^ d -> Z.even q = true) /\
+  (m mod 2 ^ d = 0 -> q * 2 ^ d = m).
+Print Assumptions float_rounding_step_nearest_even.
+
+(* every value representable in the target format (any significand width M, exponent width E: binary32 = 23, 8;
+   binary16 = 10, 5), normal or subnormal, either sign, is encoded to exactly its own bit fields; NaN gives the canonical
+   NaN and the infinities the infinities *)
+Theorem float_encode_exact_on_representable : forall M E neg be frac,
+  0 < M -> 1 < E -> 0 <= frac < 2 ^ M ->
+  (1 <= be < 2 ^ E - 1 ->
+   encode_float M E (FFin neg (frac + 2 ^ M) (be - (2 ^ (E - 1) - 1) - M)) = signbit_of M E neg + (be * 2 ^ M + frac)) /\
+  encode_float M E (FFin neg frac (1 - (2 ^ (E - 1) - 1) - M)) = signbit_of M E neg + frac /\
+  encode_float M E FNaN = nan_bits M E /\
+  encode_float M E (FInf false) = inf_bits M E /\ encode_float M E (FInf true) = 2 ^ (M + E) + inf_bits M E.
+Proof.
+  intros M E neg be frac HM HE Hf. split; [intros Hb; apply encode_normal; assumption|].
+  split; [apply encode_subnormal; assumption | apply encode_special].
+Qed.
+Check float_encode_exact_on_representable : forall M E neg be frac,
+  0 < M -> 1 < E -> 0 <= frac < 2 ^ M ->
+  (1 <= be < 2 ^ E - 1 ->
+   encode_float M E (FFin neg (frac + 2 ^ M) (be - (2 ^ (E - 1) - 1) - M)) = signbit_of M E neg + (be * 2 ^ M + frac)) /\
+  encode_float M E (FFin neg frac (1 - (2 ^ (E - 1) - 1) - M)) = signbit_of M E neg + frac /\
+  encode_float M E FNaN = nan_bits M E /\
+  encode_float M E (FInf false) = inf_bits M E /\ encode_float M E (FInf true) = 2 ^ (M + E) + inf_bits M E.
+Print Assumptions float_encode_exact_on_representable.
+
+(* binary16, all 2^16 bit patterns (finite sweep): decode then encode is the identity, NaNs give the canonical NaN *)
+Theorem float16_roundtrip_all_patterns : forall b, 0 <= b < 2 ^ 16 -> f16_roundtrip_ok b = true.
+Proof. intros b Hb. apply (all_below_spec 16 0 _ f16_roundtrip_sweep). exact Hb. Qed.
+Check float16_roundtrip_all_patterns : forall b, 0 <= b < 2 ^ 16 -> f16_roundtrip_ok b = true.
+Print Assumptions float16_roundtrip_all_patterns.
+
+(* binary16, all 2^15 magnitudes (finite sweep): the exact midpoint between a finite value and its successor (the
+   successor of 65504 being infinity, i.e. the overflow threshold 65520) goes to the one with the even pattern, either
+   sign; the doubles 2^-41 ulp-parts below / above the midpoint go to the lower / upper neighbour *)
+Theorem float16_midpoints_ties_to_even : forall b, 0 <= b < 2 ^ 15 -> f16_mid_ok b = true.
+Proof. intros b Hb. apply (all_below_spec 15 0 _ f16_midpoint_sweep). exact Hb. Qed.
+Check float16_midpoints_ties_to_even : forall b, 0 <= b < 2 ^ 15 -> f16_mid_ok b = true.
+Print Assumptions float16_midpoints_ties_to_even.
+
+(* the general case, any format (M, E), any finite non-zero value m * 2^e of any magnitude.  Normal result range with bits
+   to round off: the pattern is sign | ex + bias | sig - 2^M where sig = rshift_rne m (ex - M - e) is the nearest-even
+   rounding (float_rounding_step_nearest_even) of the significand to M + 1 bits; a carry (sig = 2^(M+1)) lands on
+   sign | ex + bias + 1 | 0; both encode the value sig * 2^(ex - M); a pattern at or above the infinity pattern gives
+   infinity (overflow is decided after rounding) *)
+Theorem float_encode_rounds_normal : forall M E neg m e, 0 < M -> 1 < E -> 0 < m ->
+  let bias := 2 ^ (E - 1) - 1 in
+  let ex := Z.log2 m + e in
+  1 - bias <= ex -> e < ex - M ->
+  let sig := rshift_rne m (ex - M - e) in
+  let mag := (ex + bias - 1) * 2 ^ M + sig in
+  encode_float M E (FFin neg m e) = signbit_of M E neg + (if inf_bits M E <=? mag then inf_bits M E else mag) /\
+  2 ^ M <= sig <= 2 ^ (M + 1) /\
+  mag = (ex + bias) * 2 ^ M + (sig - 2 ^ M) /\
+  (sig = 2 ^ (M + 1) -> mag = (ex + bias + 1) * 2 ^ M).
+Proof. exact encode_rounds_normal. Qed.
+Check float_encode_rounds_normal : forall M E neg m e, 0 < M -> 1 < E -> 0 < m ->
+  let bias := 2 ^ (E - 1) - 1 in
+  let ex := Z.log2 m + e in
+  1 - bias <= ex -> e < ex - M ->
+  let sig := rshift_rne m (ex - M - e) in
+  let mag := (ex + bias - 1) * 2 ^ M + sig in
+  encode_float M E (FFin neg m e) = signbit_of M E neg + (if inf_bits M E <=? mag then inf_bits M E else mag) /\
+  2 ^ M <= sig <= 2 ^ (M + 1) /\
+  mag = (ex + bias) * 2 ^ M + (sig - 2 ^ M) /\
+  (sig = 2 ^ (M + 1) -> mag = (ex + bias + 1) * 2 ^ M).
+Print Assumptions float_encode_rounds_normal.
+
+(* subnormal result range: the last place is pinned at emin - M, the pattern is sign | 0 | sig with sig the nearest-even
+   rounding at that place; sig = 2^M is the smallest normal value sign | 1 | 0; values below half the smallest subnormal
+   round to (signed) zero *)
+Theorem float_encode_rounds_subnormal : forall M E neg m e, 0 < M -> 1 < E -> 0 < m ->
+  let bias := 2 ^ (E - 1) - 1 in
+  let ex := Z.log2 m + e in
+  ex < 1 - bias -> e < 1 - bias - M ->
+  let sig := rshift_rne m (1 - bias - M - e) in
+  encode_float M E (FFin neg m e) = signbit_of M E neg + sig /\ 0 <= sig <= 2 ^ M.
+Proof. exact encode_rounds_subnormal. Qed.
+Check float_encode_rounds_subnormal : forall M E neg m e, 0 < M -> 1 < E -> 0 < m ->
+  let bias := 2 ^ (E - 1) - 1 in
+  let ex := Z.log2 m + e in
+  ex < 1 - bias -> e < 1 - bias - M ->
+  let sig := rshift_rne m (1 - bias - M - e) in
+  encode_float M E (FFin neg m e) = signbit_of M E neg + sig /\ 0 <= sig <= 2 ^ M.
+Print Assumptions float_encode_rounds_subnormal.
 
 (* ---- byte model ---------------------------------------------------------------------------- *)
 
